@@ -138,6 +138,7 @@ def sibling(ctx):
                             continue
                         for t, v, n in F.stores(g_):
                             at |= v
+                        at |= F.returns(g_)      # dicts built as literals
                 comps.setdefault(b, set())
                 want = [('global_flags', lambda a: has(a, tool,
                                                        'global_flags') or
